@@ -609,22 +609,26 @@ class PX:
         if isinstance(it, list):
             return self._for_live_list(st, fr, it)
         if isinstance(it, Iter):
-            n = 0
+            n = nfork = 0
             while True:
                 try:
                     x = next(it.it)
                 except StopIteration:
                     break
                 n += 1
-                if n > 100000:
-                    raise Truncated()
+                if n > 100000 or nfork > self.fork_loop_bound:
+                    raise Truncated()  # an unbounded iterator (itertools.count) whose body keeps forking
                 self.assign(st.target, x, fr)
+                taken = len(self._taken)
                 try:
                     self.exec_block(st.body, fr)
                 except _Break:
                     return
                 except _Continue:
                     continue
+                finally:
+                    if len(self._taken) > taken:
+                        nfork += 1
             self.exec_block(st.orelse, fr)
             return
         if isinstance(it, (dict, set)):
